@@ -182,6 +182,28 @@ def h_taper_structure(env, molkey, mapping, utd):
         ev_tap = np.linalg.eigvalsh(get_sparse_operator(Ht, n_qubits=n - k).toarray()) if n - k > 0 else np.array([Ht.terms.get((), 0.0).real])
         worst = max(min(abs(e - f) for f in ev_full) for e in ev_tap)
         env.check_true(worst < 1e-8, "every eigenvalue of the tapered operator is an eigenvalue of the original (numerical, 1e-8)", detail=str(worst))
+        # (a) the same tapering object applied to ANOTHER operator with the same Pauli words (another geometry): the result's
+        #     eigenvalues are eigenvalues of THAT operator; (b) the documented per-call `eigenvalues` argument selects the sector:
+        #     over all 2^k sign patterns the tapered spectra together are exactly the spectrum of the original
+        from tangelo.toolboxes.operators import QubitOperator, MultiformOperator
+        other = QubitOperator()
+        for i_, (t_, c_) in enumerate(sorted(qH.terms.items(), key=str)):
+            other.terms[t_] = c_ * (1.0 + 0.05 * ((i_ * 7) % 11 - 5) / 5.0)
+        Ht2 = tap.z2_tapering(other, n)
+        ev_o = np.linalg.eigvalsh(get_sparse_operator(other, n_qubits=n).toarray())
+        ev_t2 = np.linalg.eigvalsh(get_sparse_operator(Ht2, n_qubits=n - k).toarray()) if n - k > 0 else np.array([Ht2.terms.get((), 0.0).real])
+        worst2 = max(min(abs(e - f) for f in ev_o) for e in ev_t2)
+        env.check_true(worst2 < 1e-8, "z2_tapering(another operator with the same Pauli words): eigenvalues are eigenvalues of THAT operator (1e-8)",
+                       detail=str(worst2))
+        if k <= 3 and n <= 8:
+            union = []
+            for signs in itertools.product((1, -1), repeat=k):
+                sect = tap.z2_taper(MultiformOperator.from_qubitop(qH, n), eigenvalues=list(signs)).qubitoperator
+                union += list(np.linalg.eigvalsh(get_sparse_operator(sect, n_qubits=n - k).toarray()) if n - k > 0 else [sect.terms.get((), 0.0).real])
+            union = np.sort(np.array(union, dtype=float))
+            env.check_true(len(union) == len(ev_full) and float(np.abs(union - np.sort(ev_full)).max()) < 1e-8,
+                           "z2_taper(op, eigenvalues=signs) over all sign patterns: the sector spectra together are the spectrum of the original (1e-8)",
+                           detail=f"{len(union)} vs {len(ev_full)} eigenvalues")
         # the operator handed out is the user's to post-process: doing so in place must not change what the tapering object
         # returns the next time (its eigenvalues would no longer be those of the original Hamiltonian)
         snap = dict(Ht.terms)
